@@ -26,7 +26,7 @@ def mc_sync(tier):
     return tot
 
 
-def crash_run(vh, doc, work, name, blocks, stride, offset, wal=False, span=0, mode="crash"):
+def crash_run(vh, doc, work, name, blocks, stride, offset, wal=False, span=0, mode="crash", edges=False):
     sp = os.path.join(work, name + ".json")
     with open(sp, "w") as f:
         json.dump(doc, f)
@@ -37,6 +37,8 @@ def crash_run(vh, doc, work, name, blocks, stride, offset, wal=False, span=0, mo
         cmd.append("-wal")
     if span:
         cmd += ["-span", str(span)]
+    if edges:
+        cmd.append("-edges")
     rc, o = vlib.run(cmd, timeout=3000, env={"LXRBITSIZE": "8"})
     shutil.rmtree(os.path.join(work, name + ".w"), ignore_errors=True)
     if rc != 0:
@@ -90,6 +92,30 @@ def main():
             runs.append(("t-wal", s2.doc(), sorted(s2.blocks), 0, 0, True, 0))
         issues, nexp, states, samples, infra = [], 0, 0, [], 0
         writes_out = []
+        # "or a block fails at any instant": BEGIN, the first statements, the version row / metadata statements and COMMIT
+        # of every block fail once (the full statement enumeration belongs to C10)
+        fdoc = runs[0][1]
+        fpath = crash_run(vh, fdoc, work, "fail-edges", [], 0, 0, span=(4 if tier == "quick" else 0), mode="stmtfault", edges=True)
+        fevs = [json.loads(l) for l in open(fpath)]
+        infra += sum(1 for e in fevs if e["ev"] == "Infra")
+        fexp = [e for e in fevs if e["ev"] == "FaultExp"]
+        nexp += len(fexp)
+        fr, fiss = validate(fpath)
+        states += fr.distinct
+        open_f = vlib.open_findings(PID)
+        known = {}
+        for e in fexp:
+            if not (e.get("resumed") and e.get("equal") and e.get("syncverOKAtTip")):
+                f = next((f for f in open_f if f.get("signature", {}).get("site") and f["signature"]["site"] in e.get("site", "")), None)
+                if f:
+                    known[f["id"]] = f
+                    continue
+                issues.append(("fail-edges", 0, PID, "after a failed statement (event %s of block %s, %s) heights are not applied once each in order / ledger differs: %s"
+                               % (e["k"], e["h"], e.get("site"), e.get("diffTables")), fpath))
+        if issues:
+            keep = os.path.join(vlib.replay_dir(PID), "fail-edges-seed%d.ndjson" % seed)
+            shutil.copyfile(fpath, keep)
+            json.dump(fdoc, open(keep + ".scenario.json", "w"))
         for (name, doc, full, stride, off, wal, span) in runs:
             path = crash_run(vh, doc, work, name, full, stride, off, wal=wal, span=span)
             evs = [json.loads(l) for l in open(path)]
@@ -121,13 +147,20 @@ def main():
         if not iss2:
             raise vlib.Infra("binding self-test failed: corrupted crash observation accepted")
         viol = 0
+        shown = set()
         for (name, line, tag, text, p) in issues[:10]:
+            if name in shown:
+                continue
+            shown.add(name)
+            sys.stdout.write("  %s\n" % text[:300])
             vlib.violation(PID, os.path.join(vlib.replay_dir(PID), "%s-seed%d.ndjson" % (name, seed)))
             viol += 1
         for (h, w) in writes_out[:5]:
             # a write that bypasses the block's transaction is exactly the DevWriteOutsideTx deviation of Sync.tla
             vlib.violation(PID, os.path.join(vlib.replay_dir(PID), "%s-seed%d.ndjson" % (runs[0][0], seed)))
             viol += 1
+        for f in known.values():
+            vlib.known(PID, f["what"])
         vlib.write_evidence(PID, "fault_enumeration", {
             "evaluations": nexp,
             "distinct_nontrivial": nexp,
